@@ -361,6 +361,7 @@ pub fn config_for(mode: &str, tier: Tier) -> Config {
             uid_tokens: vec![],
             refs: false,
             overlapping_multi: true,
+            triples: false,
         },
         "refs" => Config {
             cap: cap_env.unwrap_or(if tier == Tier::Quick { 5 } else { 6 }),
@@ -368,6 +369,7 @@ pub fn config_for(mode: &str, tier: Tier) -> Config {
             uid_tokens: vec![],
             refs: true,
             overlapping_multi: true,
+            triples: false,
         },
         "uids" => Config {
             cap: cap_env.unwrap_or(if tier == Tier::Quick { 6 } else { 7 }),
@@ -375,6 +377,7 @@ pub fn config_for(mode: &str, tier: Tier) -> Config {
             uid_tokens: vec![Uid::None, Uid::U1, Uid::U2, Uid::Nil],
             refs: false,
             overlapping_multi: false,
+            triples: false,
         },
         _ => unreachable!(),
     }
@@ -446,6 +449,7 @@ pub fn clone_product(run: &Run, n_nodes: usize) -> ProductStats {
         uid_tokens: vec![],
         refs: false,
         overlapping_multi: true,
+            triples: false,
     };
     let mut seen: HashSet<Vec<u8>> = HashSet::new();
     let mut all: Vec<(Model, Vec<Op>)> = Vec::new();
@@ -474,6 +478,7 @@ pub fn clone_product(run: &Run, n_nodes: usize) -> ProductStats {
         uid_tokens: vec![],
         refs: true,
         overlapping_multi: true,
+            triples: true,
     };
     let procs = crate::forkpool::default_procs();
     let all_ref = &all;
